@@ -1142,6 +1142,79 @@ func (v *V) knownExternal(e *Env, fn *types.Func, recv *Val, call *ast.CallExpr)
 		e.st.define(implies(v.ilt(r, n.S), predAt(r, true)))
 		v.trust("sort.Search(n, f) returns the least index in [0,n] at which the monotone predicate f holds")
 		return []Val{{T: tInt, S: r}}, true
+	case "sort.Slice", "sort.SliceStable":
+		// sort.Slice(x, less) with a single-return function literal less(i, j): afterwards the elements of
+		// x are SOME values (how they relate to the elements before is not modelled) that are ordered
+		// with respect to less: for p < q not less(q, p). This is what the sort guarantees when less is
+		// a strict weak order on the elements (listed as an assumption).
+		if e.spec || len(call.Args) != 2 {
+			break
+		}
+		x := e.eval(call.Args[0])
+		stp, okS := x.T.Underlying().(*types.Slice)
+		fv := arg(1)
+		ci := v.closures[fv.S]
+		if !okS || ci == nil || len(ci.lit.Body.List) != 1 {
+			panic(unsupported("sort.Slice with a less that is not a single-return function literal"))
+		}
+		rs, ok := ci.lit.Body.List[0].(*ast.ReturnStmt)
+		var pnames []*ast.Ident
+		for _, f := range ci.lit.Type.Params.List {
+			pnames = append(pnames, f.Names...)
+		}
+		if !ok || len(rs.Results) != 1 || len(pnames) != 2 {
+			panic(unsupported("sort.Slice with a less that is not a single-return function literal"))
+		}
+		pi, _ := ci.info.Defs[pnames[0]].(*types.Var)
+		pj, _ := ci.info.Defs[pnames[1]].(*types.Var)
+		if pi == nil || pj == nil {
+			panic(unsupported("sort.Slice less parameters"))
+		}
+		if len(e.st.guards) > 0 {
+			panic(unsupported("sort.Slice inside a short-circuit operand"))
+		}
+		x = v.nameVal(e, x, "sorted")
+		elemT := stp.Elem()
+		comp, srt := v.memComp(elemT)
+		xb, xoff, xln, _ := v.sliceParts(x.S)
+		idx := v.d.idxSort()
+		mem := e.st.heapGet(v.d, comp, srt)
+		arrSort := fmt.Sprintf("(Array %s %s)", idx, v.d.sortOf(elemT))
+		oldArr := v.d.fresh("sarr", arrSort)
+		e.st.define(eq(oldArr, fmt.Sprintf("(select %s %s)", mem, xb)))
+		narr := v.d.fresh("sarr", arrSort)
+		v.d.usesQuant = true
+		// outside the slice's window nothing changes
+		e.st.define(fmt.Sprintf("(forall ((qj %s)) (! (=> (not (and %s %s)) (= (select %s qj) (select %s qj))) :pattern ((select %s qj))))",
+			idx, v.ile(xoff, "qj"), v.ilt("qj", v.iadd(xoff, xln)), narr, oldArr, narr))
+		e.st.heapSet(v.d, comp, srt, fmt.Sprintf("(store %s %s %s)", mem, xb, narr))
+		if inv := v.typeInv(e.st, Val{T: elemT, S: fmt.Sprintf("(select %s qk)", narr)}); len(inv) > 0 {
+			e.st.define(fmt.Sprintf("(forall ((qk %s)) (! %s :pattern ((select %s qk))))", idx, and(inv...), narr))
+		}
+		lessAt := func(a, b string) string {
+			pe := &Env{v: v, st: e.st, info: ci.info, pkg: ci.pkg, bound: map[string]Val{}, spec: true, inQuant: 1}
+			si, hi := e.st.vars[pi]
+			sj, hj := e.st.vars[pj]
+			e.st.vars[pi] = Val{T: pi.Type(), S: a}
+			e.st.vars[pj] = Val{T: pj.Type(), S: b}
+			r := pe.eval(rs.Results[0])
+			if hi {
+				e.st.vars[pi] = si
+			} else {
+				delete(e.st.vars, pi)
+			}
+			if hj {
+				e.st.vars[pj] = sj
+			} else {
+				delete(e.st.vars, pj)
+			}
+			return r.S
+		}
+		qp, qq := fmt.Sprintf("sp_qi%d", v.nextQ()), fmt.Sprintf("sq_qi%d", v.nextQ())
+		e.st.define(fmt.Sprintf("(forall ((%s %s)) (forall ((%s %s)) (=> (and %s %s %s) (not %s))))", qp, idx, qq, idx,
+			v.ile(v.d.idxLit(0), qp), v.ilt(qp, qq), v.ilt(qq, xln), lessAt(qq, qp)))
+		v.trust("sort.Slice / sort.SliceStable(x, less): afterwards x is ordered with respect to less (assumes less is a strict weak order); how the elements relate to those before the call is not modelled")
+		return nil, true
 	case "bytes.HasPrefix":
 		a, b := arg(0), arg(1)
 		a, b = v.nameVal(e, a, "a"), v.nameVal(e, b, "b")
